@@ -1099,6 +1099,16 @@ package bkl
 //@   propagates all   [C08]
 //@   uses canonApp
 //@   ensures (=> (not (isErr err)) (canon res))                                                              [C04]
+// scalars (yaml.ScalarNode = 8): the resolved tag alone decides the type; strings and timestamps are kept as text
+//@   ensures (=> (and (< depth 1000) (= (Node.Kind node) 8) (or (= (yamlShortTag node) "!!str") (= (yamlShortTag node) "!!timestamp")))   [C04] [C05]
+//@              (and (not (isErr err)) (= res (VStr (Node.Value node)))))
+//@   ensures (=> (and (< depth 1000) (= (Node.Kind node) 8) (= (yamlShortTag node) "!!null")) (and (not (isErr err)) (= res VNil)))      [C04] [C05]
+//@   ensures (=> (and (< depth 1000) (= (Node.Kind node) 8) (= (yamlShortTag node) "!!bool"))                                             [C04] [C05]
+//@              (and (= err (parseBoolE (Node.Value node))) (=> (not (isErr err)) (= res (VBool (parseBoolV (Node.Value node)))))))
+//@   ensures (=> (and (< depth 1000) (= (Node.Kind node) 8) (= (yamlShortTag node) "!!int"))                                              [C04] [C05]
+//@              (and (= err (parseIntE (Node.Value node) 10 64)) (=> (not (isErr err)) (= res (VInt (parseIntV (Node.Value node) 10 64))))))
+//@   ensures (=> (and (< depth 1000) (= (Node.Kind node) 8) (= (yamlShortTag node) "!!float"))                                            [C04] [C05]
+//@              (and (= err (parseFloatE (Node.Value node) 64)) (=> (not (isErr err)) (= res (VFlt (parseFloatV (Node.Value node) 64))))))
 //@   decreases (- 1002 depth)
 //@   loop 1
 //@     invariant (and ((_ is VList) ret) (canonL (ls ret)))
